@@ -7,6 +7,8 @@ import (
 	"os"
 	"path/filepath"
 	"strings"
+	"sync"
+	"time"
 	"verifmc/machine"
 
 	"verifmc/explore"
@@ -36,13 +38,51 @@ var c26Synthetic = map[string][]byte{
 		0x3e, 0xc0, 0xe0, 0x46, 0x06, 0x40, 0x05, 0x20, 0xfd, 0x18, 0xf6}}),
 }
 
+// noiseWidthPhases: channel 4 is triggered with the long (15-bit) shift register at the fastest clock, switched to the
+// short register d machine cycles later (d = 0..95, so the switch meets every content of the low bits the register has
+// in its first 40 steps, including all-zero low bits: the short register then locks up), left there long enough for the
+// high bits to drain, and switched back. The samples of the rest of the run depend on what the generator does then.
+func noiseWidthPhases() []byte {
+	code := []byte{0x3e, 0x80, 0xe0, 0x26, 0x3e, 0x77, 0xe0, 0x24, 0x3e, 0xff, 0xe0, 0x25} // NR52=80 NR50=77 NR51=FF
+	ldh := func(reg, v byte) { code = append(code, 0x3e, v, 0xe0, reg) }
+	nops := func(n int) {
+		for i := 0; i < n; i++ {
+			code = append(code, 0x00)
+		}
+	}
+	for d := 0; d < 96; d++ {
+		ldh(0x21, 0xf0) // NR42: DAC on
+		ldh(0x22, 0x00) // NR43: 15-bit, fastest clock
+		ldh(0x23, 0x80) // NR44: trigger
+		nops(d)
+		ldh(0x22, 0x08) // NR43: 7-bit
+		nops(24)
+		ldh(0x22, 0x00) // NR43: 15-bit again
+		nops(40)
+	}
+	code = append(code, 0xc3, 0x50, 0x01) // JP 0150
+	return machine.Program(map[uint16][]byte{0x100: {0xc3, 0x50, 0x01}, 0x150: code})
+}
+
+func init() { c26Synthetic["synthetic:noise-width-phases"] = noiseWidthPhases() }
+
+var writeOnceMu sync.Mutex
+
+// writeOnce creates the file if it is not there yet; workers call this concurrently, so the file appears atomically.
+func writeOnce(p string, img []byte) string {
+	writeOnceMu.Lock()
+	defer writeOnceMu.Unlock()
+	if _, err := os.Stat(p); err != nil {
+		tmp := p + ".tmp"
+		os.WriteFile(tmp, img, 0o644)
+		os.Rename(tmp, p)
+	}
+	return p
+}
+
 func c26ROMPath(c *Ctx, name string) string {
 	if img, ok := c26Synthetic[name]; ok {
-		p := filepath.Join(c.Scratch, strings.ReplaceAll(name, ":", "-")+".gb")
-		if _, err := os.Stat(p); err != nil {
-			os.WriteFile(p, img, 0o644)
-		}
-		return p
+		return writeOnce(filepath.Join(c.Scratch, strings.ReplaceAll(name, ":", "-")+".gb"), img)
 	}
 	return filepath.Join(c.Repo, "gameboy/testdata", name)
 }
@@ -151,7 +191,53 @@ func c26IRQCheck(c *Ctx) func(l *explore.Local, _ struct{}, cs c26IRQ) *explore.
 	}
 }
 
+// manualCtx is a context whose end the harness decides: expire() closes Done and makes Err report the given error
+// (context.DeadlineExceeded for a context that ends by its deadline: also a cancelled context). No wall clock is
+// involved. After it has ended it counts how often Run consults it and panics past 5 consultations (one per frame), so that a
+// Run that never stops ends the case deterministically instead of hanging.
+type manualCtx struct {
+	mu        sync.Mutex
+	done      chan struct{}
+	err       error
+	consulted int
+}
+
+func newManualCtx() *manualCtx { return &manualCtx{done: make(chan struct{})} }
+
+func (m *manualCtx) expire(err error) {
+	m.mu.Lock()
+	defer m.mu.Unlock()
+	if m.err == nil {
+		m.err = err
+		close(m.done)
+	}
+}
+
+func (m *manualCtx) tick() {
+	m.mu.Lock()
+	defer m.mu.Unlock()
+	if m.err != nil {
+		m.consulted++
+		if m.consulted > 5 {
+			panic("c26: Run keeps consulting a context that has ended and does not stop")
+		}
+	}
+}
+
+func (m *manualCtx) Deadline() (time.Time, bool) { return time.Time{}, false }
+func (m *manualCtx) Done() <-chan struct{}       { m.tick(); return m.done }
+func (m *manualCtx) Err() error {
+	m.tick()
+	m.mu.Lock()
+	defer m.mu.Unlock()
+	return m.err
+}
+func (m *manualCtx) Value(any) any { return nil }
+
 type c26Run struct {
+	// Ctx: how the context ends. "" = context.WithCancel + cancel(); "deadline" = Err() reports DeadlineExceeded;
+	// "child" = a context derived (WithValue) from one that is cancelled; "cause" = WithCancelCause
+	Ctx   string `json:"ctx,omitempty"`
 	ROM   string `json:"rom"`
 	Mode  string `json:"mode"` // close | cancel | precancel
 	N     int    `json:"n"`
@@ -165,6 +251,16 @@ func c26RunCheck(c *Ctx) func(l *explore.Local, _ struct{}, cs c26Run) *explore.
 		g := newGB(rom, cs.Video, cs.Audio, true)
 		ctx, cancel := context.WithCancel(context.Background())
 		defer cancel()
+		switch cs.Ctx {
+		case "deadline":
+			mc := newManualCtx()
+			ctx, cancel = mc, func() { mc.expire(context.DeadlineExceeded) }
+		case "child":
+			ctx = context.WithValue(ctx, struct{}{}, 1)
+		case "cause":
+			c2, cc := context.WithCancelCause(context.Background())
+			ctx, cancel = c2, func() { cc(fmt.Errorf("the front end is going away")) }
+		}
 		after := 0
 		requested := false
 		g.onFrame(func(n int, _ *image.RGBA) bool {
@@ -189,7 +285,7 @@ func c26RunCheck(c *Ctx) func(l *explore.Local, _ struct{}, cs c26Run) *explore.
 			cancel()
 			requested = true
 		}
-		desc := fmt.Sprintf("%s video=%v audio=%v n=%d", cs.Mode, cs.Video, cs.Audio, cs.N)
+		desc := fmt.Sprintf("%s%s video=%v audio=%v n=%d", cs.Mode, map[bool]string{true: " ctx=" + cs.Ctx}[cs.Ctx != ""], cs.Video, cs.Audio, cs.N)
 		defer func() {
 			if p := recover(); p != nil {
 				fail = explore.Failf("Run does not stop / panics on a stop request", "%s: %v", desc, p)
@@ -220,7 +316,7 @@ func c26RunCheck(c *Ctx) func(l *explore.Local, _ struct{}, cs c26Run) *explore.
 func init() {
 	register("C26", "model_checking", func(c *Ctx) {
 		if c.R != nil {
-			c.R.Rule = "(a) twin emulators built by the real gameboy.New from the same ROM are brought to the same state; one runs the real runFrame, the other the documented loop (17,556 x CPU; video; memory; audio; timer -> IF) on its own components; after every frame registers, all writable memory, ROM-window probes, frame pixels, drained samples (count and values), serial bytes, RTC and APU generator state must be identical, the RTC sub-second count must have advanced by exactly 17,556 and the APU clock by 70,224, and the stub display must have received exactly one frame; (b) Run: the display asks to close at frame n / the context is cancelled inside frame n / before Run, n in 0..4, with video and audio attached or not: at most one further frame, Run returns, display and speakers are each released exactly once, no panic (send on a closed channel); (c) a timer overflow placed in every machine cycle of a frame must leave the timer request in IF after runFrame"
+			c.R.Rule = "(a) twin emulators built by the real gameboy.New from the same ROM are brought to the same state; one runs the real runFrame, the other the documented loop (17,556 x CPU; video; memory; audio; timer -> IF) on its own components; after every frame registers, all writable memory, ROM-window probes, frame pixels, drained samples (count and values), serial bytes, RTC and APU generator state must be identical, the RTC sub-second count must have advanced by exactly 17,556 and the APU clock by 70,224, and the stub display must have received exactly one frame; (b) Run: the display asks to close at frame n / the context is cancelled inside frame n / before Run (by its cancel function, by its deadline, through its parent, with a cause), n in 0..4, with video and audio attached or not: at most one further frame, Run returns, display and speakers are each released exactly once, no panic (send on a closed channel); (c) a timer overflow placed in every machine cycle of a frame must leave the timer request in IF after runFrame"
 			c.R.Assumptions = []string{"the stub display / speakers replace the GL / PortAudio front end (same exported API)", "with no display attached Run can only be stopped through its context; that case is exercised with a context cancelled beforehand"}
 		}
 		roms := []string{"blargg/instr_timing/instr_timing.gb", "blargg/cpu_instrs/individual/02-interrupts.gb", "blargg/dmg_sound/rom_singles/03-trigger.gb",
@@ -260,17 +356,19 @@ func init() {
 				}
 				yield(c26IRQ{17556 - 300, 17557, 1})
 			}, func() struct{} { return struct{}{} }, c26IRQCheck(c))
-		explore.Product(c.R, "run-stops-on-request", explore.PartOpt{Workers: 4, Bound: "n in 0..4", Domain: "close / cancel inside a frame / cancelled before Run x video x audio"},
+		explore.Product(c.R, "run-stops-on-request", explore.PartOpt{Workers: 4, Bound: "n in 0..4", Domain: "close / cancel inside a frame / cancelled before Run x video x audio x 4 kinds of context (cancel function; ended by its deadline, Err = DeadlineExceeded; derived from a cancelled context; cancelled with a cause)"},
 			func(yield func(c26Run) bool) {
-				for _, mode := range []string{"close", "cancel", "precancel"} {
-					for n := 0; n <= 4; n++ {
-						for _, video := range []bool{true, false} {
-							for _, audio := range []bool{true, false} {
-								if mode == "precancel" && n > 0 {
-									continue
-								}
-								if !yield(c26Run{ROM: "blargg/halt_bug.gb", Mode: mode, N: n, Audio: audio, Video: video}) {
-									return
+				for _, kind := range []string{"", "deadline", "child", "cause"} {
+					for _, mode := range []string{"close", "cancel", "precancel"} {
+						for n := 0; n <= 4; n++ {
+							for _, video := range []bool{true, false} {
+								for _, audio := range []bool{true, false} {
+									if mode == "precancel" && n > 0 || mode == "close" && kind != "" {
+										continue
+									}
+									if !yield(c26Run{Ctx: kind, ROM: "blargg/halt_bug.gb", Mode: mode, N: n, Audio: audio, Video: video}) {
+										return
+									}
 								}
 							}
 						}
